@@ -94,6 +94,8 @@ def parts():
             e.append('%s.len() <= usize::MAX && %s > %s.len() ==> r is Err // [C04.%s.exceeds_fails]' % (OLDW, amount, OLDW, op))
         else:
             e.append('r is Ok ==> r->Ok_0 <= count')
+            # the space check comes first: a request beyond the remaining space is refused (and then nothing moves, nothing is marked)
+            e.append('%s.len() <= usize::MAX && count > %s.len() ==> r is Err // [C04.%s.exceeds_fails]' % (OLDW, OLDW, op))
         return e
     writer = [
         Fn(V, SW, 'available_bytes', ensures=['cells(self.buffers.buffers@).len() <= usize::MAX ==> r == cells(self.buffers.buffers@).len()'], props=['C04']),
@@ -128,21 +130,25 @@ def parts():
                splices=[('|bufs|', 'closure', CB)])),
         tok(Fn(V, SW, 'write_all_from',
                ensures=[
-                   # whatever happens, the log grows by exactly the addresses the cursor moved over (every partial transfer included).
-                   # (`n <= count` on the error exits is not stated: Verus gives no name to the initial value of the `mut count`
-                   # parameter inside the loop body)
+                   # whatever happens, the log grows by exactly the addresses the cursor moved over (every partial transfer included)
                    '''%s ==> ({ let n = final(self).buffers.bytes_consumed - old(self).buffers.bytes_consumed;
-                        0 <= n <= %s.len() && cells(final(self).buffers.buffers@) =~= %s.skip(n)
-                        && final(dm).marked =~= old(dm).marked + %s.subrange(0, n) && (r is Ok ==> n == count) }) // [C17.write_all_from.written_marked_exactly]''' % (NO_OVF, OLDW, OLDW, OLDW)],
+                        0 <= n <= count_init && n <= %s.len() && cells(final(self).buffers.buffers@) =~= %s.skip(n)
+                        && final(dm).marked =~= old(dm).marked + %s.subrange(0, n) && (r is Ok ==> n == count_init) }) // [C17.write_all_from.written_marked_exactly]''' % (NO_OVF, OLDW, OLDW, OLDW),
+                   # "an operation that would exceed the remaining space fails without writing"
+                   '%s && count_init > %s.len() ==> r is Err && %s && %s // [C04.write_all_from.exceeds_fails]' % (NO_OVF, OLDW, STAYS, UNMARKED)],
+               # a `mut` parameter has no name for its initial value inside a loop body: renamed in the signature and rebound at entry (logged)
+               sig_subst=[('mut count: usize', 'count_init: usize')],
                attrs=['#[verifier::exec_allows_no_decreases_clause]'], props=['C17'], canary=True,
-               splices=[('while count > 0 {', 'replace', '''let ghost count0 = count; let ghost all = cells(self.buffers.buffers@); let ghost bc0 = self.buffers.bytes_consumed; let ghost m0 = dm.marked;
+               splices=[('^', 'after', 'let mut count = count_init;'),
+                        ('while count > 0 {', 'replace', '''let ghost count0 = count; let ghost all = cells(self.buffers.buffers@); let ghost bc0 = self.buffers.bytes_consumed; let ghost m0 = dm.marked;
         let ghost novf = bc0 + all.len() <= usize::MAX;
         proof { assert(all.skip(0) =~= all); assert(all.subrange(0, 0) =~= Seq::<int>::empty()); }
         while count > 0
             invariant
-                count <= count0, all == cells(old(self).buffers.buffers@), bc0 == old(self).buffers.bytes_consumed, m0 == old(dm).marked,
+                count <= count0, count0 == count_init, all == cells(old(self).buffers.buffers@), bc0 == old(self).buffers.bytes_consumed, m0 == old(dm).marked,
                 novf == (bc0 + all.len() <= usize::MAX),
-                novf ==> count0 <= all.len() && self.buffers.bytes_consumed == bc0 + (count0 - count)
+                novf ==> count0 <= all.len(), // [C04.write_all_from.exceeds_fails]
+                novf ==> (count0 - count) <= all.len() && self.buffers.bytes_consumed == bc0 + (count0 - count)
                     && cells(self.buffers.buffers@) =~= all.skip(count0 - count) && dm.marked =~= m0 + all.subrange(0, count0 - count), // [C17.write_all_from.loop]
         {
             let ghost k = count0 - count;
